@@ -15,7 +15,8 @@ ID = "C09"
 LEVEL = "fault_enumeration"
 RULE = ("scenario = redirect chain of 0..5 hops (each its own simulated host) x redirect_limit 0..4/default x final "
         "response head (status; Upgrade / Connection present, missing, mixed case, padded, in token lists, look-alike; "
-        "accept right / wrong / missing / for the previous hop's key / RFC sample / one character changed; status token "
+        "accept right / wrong / missing / for the previous hop's key / RFC sample / one character changed / the right value with "
+        "damage a lenient base64 decoder forgives (junk before, inside, after; repeated; unused low bits; padding); status token "
         "that is not the three digits 101 (+101, 0101, 1_0_1, full-width digits, 000 followed by a header line that looks like "
         "a status line ...); subprotocol "
         "offered x selected right / wrong / missing) x fault (end of stream or receive timeout at a byte position of "
@@ -38,7 +39,9 @@ UPGRADE_VARIANTS = {"std": "websocket", "case": "WebSocket", "upper": "WEBSOCKET
 CONNECTION_VARIANTS = {"std": "Upgrade", "lower": "upgrade", "upper": "UPGRADE", "list": "keep-alive, Upgrade",
                        "list2": "Upgrade,keep-alive", "padded": "   Upgrade ", "missing": None, "close": "close",
                        "lookalike": "Upgraded", "empty": "", "keepalive": "keep-alive"}
-ACCEPT_VARIANTS = ("right", "wrong", "missing", "prev_key", "rfc_sample", "one_char", "truncated", "empty", "key_itself")
+ACCEPT_VARIANTS = ("right", "wrong", "missing", "prev_key", "rfc_sample", "one_char", "truncated", "empty", "key_itself",
+                   # the right value with damage a lenient base64 decoder forgives
+                   "trailing_garbage", "inner_junk", "leading_junk", "repeated", "low_bits", "no_padding", "extra_padding")
 RFC_SAMPLE_ACCEPT = "s3pPLMBiTxaQ9kYGzzhZRbK+xOo="
 
 
@@ -149,6 +152,24 @@ class HSPeer(BasePeer):
             return ""
         if v == "key_itself":
             return self.key or "x"
+        if v == "trailing_garbage":
+            return right + "garbage"
+        if v == "inner_junk":
+            i = 3 + int(self.spec.get("char_idx", 3)) % 20
+            return right[:i] + "!" + right[i:]
+        if v == "leading_junk":
+            return "??" + right
+        if v == "repeated":
+            return right + ", " + right
+        if v == "low_bits":
+            # the last character before '=' carries two unused bits: another character decodes to the same 20 bytes
+            alpha = "ABCDEFGHIJKLMNOPQRSTUVWXYZabcdefghijklmnopqrstuvwxyz0123456789+/"
+            c = right[-2]
+            return right[:-2] + alpha[alpha.index(c) ^ 1] + "="
+        if v == "no_padding":
+            return right.rstrip("=")
+        if v == "extra_padding":
+            return right + "=="
         raise InvalidScenario("accept variant")
 
 
